@@ -59,7 +59,7 @@ func init() {
 	register(&Def{
 		ID:        "C06",
 		Technique: "who-may-call inventory of Handler-typed calls, dominance by the Acquire success edge, acquire/release pairing by path query, provenance of the semaphore size",
-		Explanation: "Decides: (D1) server-side code calls a Handler value at exactly one site, dominated by the err == nil edge of Acquire on the server's semaphore (built-in handlers are returned as Handler values and take the same path); (D2) every Release is in the acquiring function's own control flow with the acquire's weight, every path from a successful Acquire to the function's exit releases, and no Release precedes the handler call; (D3) the semaphore size is the options accessor's result, which is NumCPU() or the option on its ≥ 1 edge, without arithmetic; (D4) on Acquire's error edge the handler is unreachable.",
+		Explanation: "Decides: (D1) server-side code calls a Handler value at exactly one site, dominated by the err == nil edge of Acquire on the server's semaphore (built-in handlers are returned as Handler values and take the same path); (D2) every Release is in the acquiring function's own control flow with the acquire's weight, every path from a successful Acquire to the function's exit releases, and no Release precedes the handler call; (D3) the semaphore size is the options accessor's result, which is NumCPU() or the option on its ≥ 1 edge, without arithmetic; (D4) on Acquire's error edge the handler is unreachable. (D5) between obtaining a slot and calling the handler nothing takes the server lock.",
 		NotDecided:  []string{"work conservation (semaphore.Weighted's contract)", "that a cancelled waiter's error is reported as a cancellation error (C14)"},
 		Assumptions: []string{"golang.org/x/sync/semaphore.Weighted semantics"},
 		RuleText:    ruleText,
@@ -78,7 +78,7 @@ func init() {
 	register(&Def{
 		ID:        "C07",
 		Technique: "writer/deleter inventory of the in-flight table with call-graph reachability, lock discipline on the table, dominance of the reservation by validation, extracted 'not executed' predicate vs. reservation post-condition, loop-exit analysis of the release loop",
-		Explanation: "Decides: (D1) ids are reserved at one site, in the context-attach function, and the table is accessed only under the server lock; (D2) the reservation is reached only on the err == nil edge of the same task, a hit in the table fails the task, and all lookups of a batch precede its first reservation; (D3) the predicate under which a response is marked 'not executed' (task.X == nil) is implied false by a reservation (X set non-nil before reserving), the delivery-time release is governed exactly by that mark, and the release loop has no early exit; (D4) ids are deleted only on the way through the delivery function or the stop function (never from CancelRequest).",
+		Explanation: "Decides: (D1) ids are reserved at one site, in the context-attach function, and the table is accessed only under the server lock; (D2) the reservation is reached only on the err == nil edge of the same task, a hit in the table fails the task, and all lookups of a batch precede its first reservation; (D3) the predicate under which a response is marked 'not executed' (task.X == nil) is implied false by a reservation (X set non-nil before reserving), the delivery-time release is governed exactly by that mark, and the release loop has no early exit; (D4) ids are deleted only on the way through the delivery function or the stop function (never from CancelRequest). (D5) each reservation stores the cancel function of a context.WithCancel executed for that reservation, and CancelRequest looks up exactly the id it was given.",
 		NotDecided:  []string{"the history-level statement in full", "that the key passed to the reservation equals the id looked up (lock-step slices)"},
 		Assumptions: []string{"context.WithCancel/WithValue return non-nil contexts"},
 		RuleText:    ruleText,
